@@ -109,6 +109,14 @@ HeadTemplates(t) ==
                     [op |-> "add", a |-> n + 1, b |-> n + 2] >>,
        natural |-> {}] : j \in {1}, s \in TrunkRGLeaves }
     \cup
+    \* two additive own parameters (autograd hands the SAME gradient tensor to both):
+    \* loss = sum(f_j + (p + q))
+    { [nodes |-> << NewLeaf(sz[F[j]], t), NewLeaf(sz[F[j]], t + 1),
+                    [op |-> "add", a |-> n + 1, b |-> n + 2],
+                    [op |-> "add", a |-> F[j], b |-> n + 3],
+                    [op |-> "lin", a |-> n + 4, mat |-> SumRow(sz[F[j]])] >>,
+       natural |-> {n + 1, n + 2}] : j \in {1} }
+    \cup
     \* a head that ignores the features:  loss = sum(p * p)
     { [nodes |-> << NewLeaf(2, t),
                     [op |-> "mul", a |-> n + 1, b |-> n + 1],
